@@ -421,6 +421,17 @@ func (e *Exec) tmInitGhosts(st *State) {
 			case strings.HasPrefix(n, "Add"):
 				e.ghostGet(st, fam+"_add_sum", et, e.sc.zero(et))
 				e.ghostGet(st, fam+"_add_count", tInt, e.sc.idxLit(0))
+			case strings.HasPrefix(n, "Store"):
+				// a plain store performs no CAS: the CAS ghosts of the family exist and stay at their
+				// initial values, so a contract written for a CAS loop fails its obligations (rather than
+				// no longer applying) when the loop is replaced by a store
+				e.ghostGet(st, fam+"_cas_done", tBool, "false")
+				e.ghostGet(st, fam+"_cas_count", tInt, e.sc.idxLit(0))
+				e.ghostGet(st, fam+"_cas_old", et, e.sc.zero(et))
+				e.ghostGet(st, fam+"_cas_new", et, e.sc.zero(et))
+				if idxV != nil {
+					e.ghostGet(st, fam+"_cas_idx", tInt, e.sc.idxLit(0))
+				}
 			}
 			if g, ok := ti.observe[fam]; ok {
 				at := types.NewArray(et, 1)
